@@ -14,7 +14,9 @@ _OPS = ("<", "<=", "==", "!=", ">=", ">")
 
 # descriptions of checks are free text (they show up in messages): also with characters that mean something to
 # %-formatting, str.format, regular expressions and the CID's own syntax
-_DESCRIPTIONS = ["%s", "%s", "%s", "100%% sure: %s", "%s (%%s, %%d)", "%s {0} {}", "%s \\d+ [", "%s, \"quoted\"", "\xe4 %s"]
+_DESCRIPTIONS = ["%s", "%s", "%s", "100%% sure: %s", "%s (%%s, %%d)", "%s {0} {}", "%s \\d+ [", "%s, \"quoted\"", "\xe4 %s",
+                 # blanks at the edges are part of the text (or not - but the same wherever the CID is stored)
+                 " %s", "%s ", "  %s  "]
 
 
 def _pools(draw, field, fmt, n=5):
